@@ -75,6 +75,12 @@ type bodyCase struct {
 	Script      []stepT
 	Dflt        int
 	Caps        []int
+	// Real: the request travels over a loopback connection to a real net/http server (chunked when CL
+	// is nil, else with a truthful Content-Length); the client writes the body in pieces of Chunks bytes.
+	// The transport's own chunking is unknown — for a well-behaved transport the theorems say it is
+	// irrelevant — so the case line carries an empty script.
+	Real   bool  `json:",omitempty"`
+	Chunks []int `json:",omitempty"`
 }
 
 var errTransport = errors.New("transport failure")
@@ -113,6 +119,26 @@ func (u *under) Read(p []byte) (int, error) {
 }
 
 func (u *under) Close() error { return nil }
+
+// pieces is the client-side body of a Real case: it hands the body to the HTTP client in pieces.
+type pieces struct {
+	rem   []byte
+	sizes []int
+}
+
+func (p *pieces) Read(b []byte) (int, error) {
+	if len(p.rem) == 0 {
+		return 0, io.EOF
+	}
+	k := len(b)
+	if len(p.sizes) > 0 {
+		k = min(k, max(p.sizes[0], 1))
+		p.sizes = p.sizes[1:]
+	}
+	n := copy(b[:k], p.rem)
+	p.rem = p.rem[n:]
+	return n, nil
+}
 
 func genBody(r *hx.Rand) *bodyCase {
 	c := &bodyCase{}
@@ -191,6 +217,16 @@ func genBody(r *hx.Rand) *bodyCase {
 		c.CL = &s
 	}
 	c.Skip = r.Chance(1, 12)
+	if r.Chance(1, 25) {
+		c.Real, c.Script, c.EofWithLast = true, nil, false
+		if c.CL != nil {
+			t := strconv.Itoa(n)
+			c.CL = &t
+		}
+		for i, k := 0, r.Range(0, 4); i < k; i++ {
+			c.Chunks = append(c.Chunks, hx.Pick(r, []int{1, 2, lim, lim + 1, max(lim-1, 1)}))
+		}
+	}
 	return c
 }
 
@@ -273,6 +309,29 @@ func (c *bodyCase) emit(id string, st *hx.Stats) string {
 				}
 			}
 		})
+		if c.Real {
+			srv := httptest.NewServer(r)
+			defer srv.Close()
+			req, err := http.NewRequest(http.MethodPost, srv.URL+"/up", &pieces{rem: append([]byte(nil), c.Body...), sizes: c.Chunks})
+			if err != nil {
+				panic(err)
+			}
+			req.ContentLength = -1 // chunked
+			if c.CL != nil {
+				req.ContentLength = int64(len(c.Body))
+				if len(c.Body) == 0 {
+					req.Body = http.NoBody
+				}
+			}
+			resp, err := http.DefaultClient.Do(req)
+			if err != nil {
+				panic(err)
+			}
+			io.Copy(io.Discard, resp.Body)
+			resp.Body.Close()
+			rec.Code = resp.StatusCode
+			return
+		}
 		req := httptest.NewRequest(http.MethodPost, "/up", nil)
 		req.Body = &under{rem: append([]byte(nil), c.Body...), script: append([]stepT(nil), c.Script...), eofWithLast: c.EofWithLast}
 		req.ContentLength = -1
@@ -302,6 +361,9 @@ func (c *bodyCase) emit(id string, st *hx.Stats) string {
 		}
 		if ill {
 			st.Count("B.ill_behaved_reader")
+		}
+		if c.Real {
+			st.Count("B.real_http_server_transport")
 		}
 		if boundaryAtLimit {
 			st.Count("B.chunk_boundary_at_limit")
